@@ -230,3 +230,117 @@ Print Assumptions C03_operand_derefs_complete.
 Example C03_example_enter_derefs :
   RootsProofs2.enter_derefs (EnvProofs.ex_vm (VBool false)) = [2; 0; 1].
 Proof. exact RootsProofs2.ex_enter_derefs. Qed.
+
+(* ==== the end-to-end argument for the concrete step [Vm.run_one] (Proofs/GcObsProofs.v,
+   GcIso.v, GcIsoPrim.v, GcIsoStep.v, GcIsoSched.v, GcIsoEx.v) ==== *)
+From MW Require Proofs.GcObsProofs Proofs.GcIso Proofs.GcIsoPrim Proofs.GcIsoStep Proofs.GcIsoSched
+  Proofs.GcIsoEx.
+
+(* (1) what a collection changes: the state after agrees with the state before on the
+   registers, payload tables, globals, stack up to sp, heap length and on EVERY cell reachable
+   from the roots; the reachable set itself is unchanged *)
+Theorem C03_gc_agree : forall vd fuel order v h',
+  no_used (hp v) -> Permutation order (map fst (g_bind v)) ->
+  collect vd fuel order v = Ok h' -> GcObsProofs.agree_on_reach v (VmBase.with_heap v h').
+Proof. exact GcObsProofs.gc_agree. Qed.
+Print Assumptions C03_gc_agree.
+
+Theorem C03_reach_collect : forall vd fuel order v h' a,
+  no_used (hp v) -> Permutation order (map fst (g_bind v)) ->
+  collect vd fuel order v = Ok h' -> (reach (VmBase.with_heap v h') a <-> reach v a).
+Proof. exact GcObsProofs.reach_collect. Qed.
+Print Assumptions C03_reach_collect.
+
+Theorem C03_agree_reach : forall s1 s2 a, GcObsProofs.agree_on_reach s1 s2 -> (reach s2 a <-> reach s1 a).
+Proof. exact GcObsProofs.reach_agree. Qed.
+Print Assumptions C03_agree_reach.
+
+(* (3) no_dangling is ESTABLISHED by a collection: afterwards every reachable address inside
+   the heap is an allocated cell, and the successors of a reachable cell are allocated with
+   their contents intact — no reachable cell points to a freed cell *)
+Theorem C03_no_dangling_collect : forall vd fuel order v h',
+  no_used (hp v) -> Permutation order (map fst (g_bind v)) ->
+  collect vd fuel order v = Ok h' -> no_dangling (VmBase.with_heap v h').
+Proof. exact GcObsProofs.no_dangling_collect. Qed.
+Print Assumptions C03_no_dangling_collect.
+
+Theorem C03_no_dangling_edges : forall vd fuel order v h' a b,
+  no_used (hp v) -> Permutation order (map fst (g_bind v)) ->
+  collect vd fuel order v = Ok h' ->
+  reach v a -> a < hlen (hp v) -> cref (st v) (cell_at h' a) b -> b < hlen (hp v) ->
+  g_get (gcmap h') b = GAllocated /\ cell_at h' b = cell_at (hp v) b.
+Proof. exact GcObsProofs.no_dangling_edges. Qed.
+Print Assumptions C03_no_dangling_edges.
+
+(* (2) step_respects_heap_iso for [run_one], instruction classes MOV, MOV-immediate, PUSH,
+   PUSH %acc, PUSH-immediate, JMP, JNT, RET, HALT ([GcIsoStep.covered]; side conditions: no
+   frame-relative read above %sp, no raw heap pointer as MOV destination, RET on a complete
+   frame).  [GcIso.srel W s1 s2]: s2 is s1 with every live address renamed by [wf W] (cells,
+   stack up to the bound, registers, globals, live payloads; jump targets in bytecode are NOT
+   renamed).  [outcome]: a normal or error result of s1 whose heap still fits a usize is
+   matched by s2 with the same flag / error class and message, in related states of an
+   extended world.  Any builtin table. *)
+Theorem C03_run_one_iso : forall ob W s1 s2,
+  GcIso.srel W s1 s2 -> GcIsoStep.covered s1 ->
+  GcIsoPrim.outcome W (@GcIsoPrim.eqr bool) (Vm.run_one ob s1) (Vm.run_one ob s2).
+Proof. exact GcIsoStep.run_one_iso. Qed.
+Print Assumptions C03_run_one_iso.
+
+(* the OPEN statement [step_respects_heap_iso_stmt], corrected: restricted to the covered
+   instructions and to a result heap that fits a usize (the model's heap is unbounded, the
+   null address USIZE_MAX must stay outside it) *)
+Theorem C03_step_respects_heap_iso_covered : forall ob f v1 v2 v1' halt,
+  GcIsoSched.heap_iso f v1 v2 -> GcIsoStep.covered v1 -> GcIsoPrim.bounded v1' ->
+  GcIsoSched.step_of ob v1 = Ok (v1', halt) ->
+  exists f' v2', GcIsoSched.step_of ob v2 = Ok (v2', halt) /\ GcIsoSched.heap_iso f' v1' v2'.
+Proof. exact GcIsoSched.step_respects_heap_iso_covered. Qed.
+Print Assumptions C03_step_respects_heap_iso_covered.
+
+(* live addresses are allocated on both sides: no_dangling as part of the invariant *)
+Theorem C03_srel_live_allocated : forall W s1 s2 a, GcIso.srel W s1 s2 -> GcIso.wa W a ->
+  allocated (hp s1) a /\ allocated (hp s2) (GcIso.wf W a).
+Proof. exact GcIsoSched.srel_live_allocated. Qed.
+Print Assumptions C03_srel_live_allocated.
+
+(* a collection on the right-hand machine keeps the relation when the world is tight (every
+   live address is reachable from the roots the collector marks) and nothing reachable is free *)
+Theorem C03_collect_srel : forall W s1 s2 vd fuel order h',
+  GcIso.srel W s1 s2 -> GcIsoSched.tight W s2 -> GcIsoSched.reach_allocated s2 ->
+  no_used (hp s2) -> Permutation order (map fst (g_bind s2)) ->
+  collect vd fuel order s2 = Ok h' -> GcIso.srel W s1 (VmBase.with_heap s2 h').
+Proof. exact GcIsoSched.collect_srel. Qed.
+Print Assumptions C03_collect_srel.
+
+(* (4) schedules: for every schedule (true = collect before that instruction) and every
+   collector [gc] that keeps "related" (C03_collect_srel gives this for [collect] on tight
+   worlds), if the plain run executes covered instructions only, the scheduled run ends the
+   same way (same HALT flag, same error class and message) in a related state *)
+Theorem C03_sched_unobservable : forall ob (gc : vm -> vm -> Prop),
+  (forall s1 s2 s2', GcIsoSched.related s1 s2 -> gc s2 s2' -> GcIsoSched.related s1 s2') ->
+  (forall s1 s2, GcIsoSched.related s1 s2 -> exists s2', gc s2 s2') ->
+  forall sched s1 s2,
+  GcIsoSched.related s1 s2 -> GcIsoSched.plain_ok ob (length sched) s1 ->
+  match GcIsoSched.run_plain ob (length sched) s1 with
+  | VmBase.ROk b s1' => exists s2', GcIsoSched.run_sched ob gc sched s2 (VmBase.ROk b s2') /\ GcIsoSched.related s1' s2'
+  | VmBase.RErr e msg s1' => exists s2', GcIsoSched.run_sched ob gc sched s2 (VmBase.RErr e msg s2') /\ GcIsoSched.related s1' s2'
+  | _ => True
+  end.
+Proof. exact GcIsoSched.sched_unobservable. Qed.
+Print Assumptions C03_sched_unobservable.
+
+(* non-vacuity: the machine GcIsoEx.ix_vm (code object PUSH %acc; HALT in cell 0) is related to
+   itself, its two instructions are covered, and the plain run halts with sp = 1 *)
+Example C03_example_iso : forall ob,
+  GcIsoSched.related GcIsoEx.ix_vm GcIsoEx.ix_vm /\ GcIsoSched.plain_ok ob 2 GcIsoEx.ix_vm
+  /\ exists s', GcIsoSched.run_plain ob 2 GcIsoEx.ix_vm = VmBase.ROk true s'
+                /\ VmBase.sget s' 1 = VUndef /\ sp s' = 1.
+Proof. exact GcIsoEx.ix_ok. Qed.
+(* non-vacuity of C03_gc_agree: on GcProofs.ex_vm the collection frees cell 3 and the states agree *)
+Example C03_example_gc_agree : exists h',
+  collect 2 9 [] ex_vm = Ok h' /\ GcObsProofs.agree_on_reach ex_vm (VmBase.with_heap ex_vm h')
+  /\ g_get (gcmap h') 3 = GFree /\ g_get (gcmap (hp ex_vm)) 3 = GAllocated.
+Proof.
+  destruct C03_example_run as (h' & E & _). exists h'. split; [exact E|]. split.
+  - apply (C03_gc_agree 2 9 [] ex_vm h'); [apply C03_example_hyps|constructor|exact E].
+  - vm_compute in E. injection E as <-. split; reflexivity.
+Qed.
